@@ -17,7 +17,7 @@ CLAIM = dict(
           "view::broadcast_binary_ufunc, view::where, view::unary_ufunc, outer_add/outer_subtract/view::outer(custom op) over all pairs of "
           "shapes dim 0..3 extents 1..3 incl. scalars, element-wise views and fixed-rank arrays as operands, int64 data, exact; "
           "(b) identity of 86 element-wise functions (68 ufuncs incl. bitwise/logical/comparison/math, 18 activations): view::<fn> on a "
-          "small array compared BIT FOR BIT with the scalar formula evaluated in the same process with the same libm — a C++-side "
+          "small double array (the 39 unary math functions also on a float array) compared BIT FOR BIT with the scalar formula evaluated in the same process with the same libm — a C++-side "
           "oracle: the model side only prints the constant expectation 'ok' (there is no Coq model of libm); (c) element types of "
           "add/subtract/multiply/divide/less/equal views over the 10x10 numeric type pairs and of sum, read off the view type and compared "
           "with promote_cxx / bool / the operand type. NOT COVERED: view::clip and the n-ary view::ufunc with three operands do not "
@@ -103,6 +103,7 @@ def gen_cases(rng, tier):
         if rng.random() < 0.5: a, b = b, a
         out.append(("rank4", "ufunc2 S:%s S:%s S:arr %s %s" % (OPS2[i % 6], ["arr", "view"][i % 2] if a else "arr", operand(rng, a), operand(rng, b)), "c07"))
     for f in FNS: out.append(("identity", "ident S:%s" % f, "c07i"))
+    for f in FNS[:39]: out.append(("identity", "ident S:%s S:f32" % f, "c07i"))    # unary math functions on float data
     for op in ["add", "subtract", "multiply", "divide", "less", "equal"]:
         for t1 in TYPES:
             for t2 in TYPES: out.append(("dtype", "dtype S:%s S:%s S:%s" % (op, t1, t2), "c07d"))
